@@ -664,4 +664,836 @@ theorem insert_sem {s : State} (inv : Inv s) {h : Nat} (hlt : h < s.hs.length) (
       | ok s1 nb => exact insert_private_sem pos bytes hu hal absx es (Nat.le_refl _)
 
 
+/-- the value returned does not matter for `Sem` -/
+def Out.mapv {α β : Type} (f : α → β) : Out α → Out β
+  | .ok s v => .ok s (f v)
+  | .fail s e => .fail s e
+  | .fault w => .fault w
+
+theorem Sem.mapv {α β : Type} {s : State} {h : Nat} {R : Vec.Vec → Vec.Vec → Prop} {r : Out α} (f : α → β)
+    (hs : Sem s h R r) : Sem s h R (Out.mapv f r) := by
+  cases r <;> exact hs
+
+/-- failure code does not matter for `Sem` -/
+def Out.mape {α : Type} (f : Fail → Fail) : Out α → Out α
+  | .ok s v => .ok s v
+  | .fail s e => .fail s (f e)
+  | .fault w => .fault w
+
+theorem Sem.mape {α : Type} {s : State} {h : Nat} {R : Vec.Vec → Vec.Vec → Prop} {r : Out α} (f : Fail → Fail)
+    (hs : Sem s h R r) : Sem s h R (Out.mape f r) := by
+  cases r <;> exact hs
+
+theorem Sem.weaken {α : Type} {s : State} {h : Nat} {R R' : Vec.Vec → Vec.Vec → Prop} {r : Out α}
+    (hs : Sem s h R r) (imp : ∀ v v', R v v' → R' v v') : Sem s h R' r := by
+  cases r with
+  | fault w => exact hs
+  | fail s1 e => exact hs
+  | ok s1 v => exact ⟨hs.1, hs.2.1, imp _ _ hs.2.2.1, hs.2.2.2⟩
+
+theorem vec_insert_end (v : List Byte) (n : Nat) : Vec.insert v v.length (zeros n) = Vec.padTo v (v.length + n) := by
+  simp [Vec.insert, Vec.padTo, Vec.zeros, zeros]
+
+theorem sliceFill_plain (s : State) (h nb : Nat) (t : Option Traits) (pt : PlainT t) (p m : Nat) :
+    sliceFill s h nb t p m = poke s h p (zeros m) := by
+  unfold sliceFill
+  cases t with
+  | none => rfl
+  | some t => simp [(pt t rfl).1]
+
+theorem slice_sem {s : State} (inv : Inv s) {h : Nat} (hlt : h < s.hs.length) (off len : Nat) :
+    Sem s h (fun v v' => v' = Vec.slice v off len) (arraySlice s h off len) := by
+  unfold arraySlice
+  cases hh : s.handle h with
+  | none =>
+    simp only
+    obtain ⟨dp, absx⟩ := attach_fresh inv hlt hh (off + len) none PlainT.none
+    obtain ⟨inv1, len1, oth1, hh1, z, hz, _⟩ := dp
+    have hz' : ((s.newBuf (off + len) 0).setHandle h (some s.bufs.length)).buf? s.bufs.length
+        = some (State.fresh (off + len) 0 none) := by
+      rw [State.buf?_setHandle, State.buf?_newBuf]; simp
+    rw [hz']
+    simp only [setUsed]
+    have asz := le_allocSize (off + len)
+    have pm := inv1.setBuf_private hh1 hz' rfl
+      { State.fresh (off + len) 0 none with
+        data := (if off + len ≠ 0 then Mem.write (State.fresh (off + len) 0 none).data 0 (zeros (off + len)) else (State.fresh (off + len) 0 none).data),
+        used := off + len } rfl
+      (by
+        simp only [Buf.size]
+        split
+        · rw [write_length _ _ _ (by simp [State.fresh]; omega)]; simp [State.fresh]; omega
+        · simp [State.fresh]; omega)
+      PlainT.none (by simp [State.fresh, esize, Nat.mod_one])
+    refine ⟨pm.1, by simpa using len1, ?_, ?_⟩
+    · rw [pm.2.1, State.abs_none hh]
+      simp only [Buf.content, Vec.slice, Vec.padTo, Vec.zeros]
+      by_cases t0 : off + len = 0
+      · simp [t0]
+      · simp only [t0, ne_eq, not_false_eq_true, if_true]
+        have := content_take_write (State.fresh (off + len) 0 none).data (zeros (off + len)) (by simp [State.fresh]; omega)
+        simp only [zeros_length] at this
+        rw [this]; simp [zeros]
+    · intro h' ne; rw [pm.2.2 h' ne]; exact oth1 h' ne
+  | some b =>
+    simp only
+    obtain ⟨x, hb⟩ := inv.live h b hh
+    rw [hb]
+    simp only
+    have hu := inv.used b x hb
+    have hal := inv.aligned b x hb
+    have hp := inv.plain b x hb
+    have absx : s.abs h = x.content := State.abs_of hh hb
+    have cl := content_length x hu
+    split
+    · exact Sem.fail_same inv _ _ _
+    · have es := ensure_sem inv hh hb (decide (off + len > x.size ∨ x.immutable = true ∨ x.shared = true)) (max (off + len) x.used)
+        (by
+          intro hn
+          simp only [decide_eq_false_iff_not, not_or, Buf.shared, decide_eq_true_eq, Bool.not_eq_true] at hn
+          simp only [Buf.size] at hu hn ⊢
+          exact ⟨by omega, hn.2.1, by omega⟩)
+      generalize ensure s h b _ (max (off + len) x.used) = r at es
+      cases r with
+      | fault w => exact es
+      | fail s1 e => exact ⟨es.1, by rw [es.2.1], es.2.2⟩
+      | ok s1 nb =>
+        simp only
+        have dp : DetachPost s h x (max (off + len) x.used) s1 nb := es
+        split
+        · rename_i grow
+          have ips := insert_private_sem (s := s) (h := h) x.used (zeros (off + len - x.used)) hu hal absx dp
+            (by simp only [zeros_length]; omega)
+          simp only [zeros_length] at ips
+          unfold sliceGrow
+          have ips2 := (ips.mapv (fun _ => off)).mape (fun _ => Fail.null)
+          have rel : ∀ v v', v' = Vec.insert v x.used (zeros (off + len - x.used)) → v = x.content → v' = Vec.slice v off len := by
+            intro v v' e1 e2
+            subst e2
+            rw [e1, ← cl, vec_insert_end, cl]
+            simp only [Vec.slice]
+            congr 1; omega
+          cases hbi : bufferInsert s1 nb x.used (off + len - x.used) with
+          | fault w => rw [hbi] at ips2; exact ips2
+          | fail s2 e =>
+            rw [hbi] at ips2
+            exact ⟨ips2.1, ips2.2.1, ips2.2.2⟩
+          | ok s2 p =>
+            rw [hbi] at ips2
+            simp only at ips2
+            simp only [sliceFill_plain _ _ _ _ hp]
+            cases hpk : poke s2 h p (zeros (off + len - x.used)) with
+            | fault w => rw [hpk] at ips2; exact ips2
+            | fail s3 e => rw [hpk] at ips2; exact ⟨ips2.1, ips2.2.1, ips2.2.2⟩
+            | ok s3 u =>
+              rw [hpk] at ips2
+              exact ⟨ips2.1, ips2.2.1, rel _ _ ips2.2.2.1 absx, ips2.2.2.2⟩
+        · rename_i nogrow
+          obtain ⟨z, hz, zr, zi, zs, zt, zu, zc⟩ := dp.keeps hu (by omega)
+          refine ⟨dp.1, dp.2.1, ?_, dp.2.2.1⟩
+          rw [State.abs_of dp.2.2.2.1 hz, zc, absx]
+          simp only [Vec.slice, Vec.padTo, Vec.zeros]
+          rw [cl]
+          have : off + len - x.used = 0 := by omega
+          simp [this]
+
+
+theorem set_sem {s : State} (inv : Inv s) {h : Nat} (hlt : h < s.hs.length) (t : Traits) (pt : PlainT (some t))
+    (bytes : List Byte) (hasSrc : Bool) (off : Int) :
+    Sem s h (fun v v' => Vec.setAt v t.size off bytes = some v') (arraySet s h (some t) bytes hasSrc off) := by
+  unfold arraySet
+  simp only
+  split
+  · exact Sem.fail_same inv _ _ _
+  · rename_i szok
+    simp only [not_or, Decidable.not_not] at szok
+    cases hh : s.handle h with
+    | none =>
+      simp only
+      split
+      · exact Sem.fail_same inv _ _ _
+      · rename_i posok
+        obtain ⟨dp, absx⟩ := attach_fresh inv hlt hh ((off * Int.ofNat t.size).toNat + bytes.length) (some t) pt
+        have bs := bufferSet_private_sem (s := s) (h := h) (off * Int.ofNat t.size).toNat bytes hasSrc
+          (x := State.fresh ((off * Int.ofNat t.size).toNat + bytes.length) 0 (some t))
+          (by simp [State.fresh]) (by simp [State.fresh]) absx dp (by simp [State.fresh])
+        have rel : ∀ v v', v' = Vec.write v (off * Int.ofNat t.size).toNat bytes → v = [] →
+            Vec.setAt v t.size off bytes = some v' := by
+          intro v v' e1 e2
+          subst e2
+          unfold Vec.setAt
+          have o0 : ¬ off < 0 := by
+            intro neg
+            have : off * Int.ofNat t.size ≤ 0 := Int.mul_nonpos_of_nonpos_of_nonneg (Int.le_of_lt neg) (Int.natCast_nonneg _)
+            have tpos : (0 : Int) < Int.ofNat t.size := by
+              have := szok.1; simp; omega
+            have : off * Int.ofNat t.size < 0 := Int.mul_neg_of_neg_of_pos neg tpos
+            omega
+          simp only [o0, if_false, posok, e1]
+        have a0 : s.abs h = [] := State.abs_none hh
+        show Sem s h _ (match bufferSet _ _ (State.fresh ((off * Int.ofNat t.size).toNat + bytes.length) 0 (some t)).traits _ _ _ with
+          | .ok s2 _ => .ok s2 _
+          | .fail s2 _ => .fail s2 .null
+          | .fault w => .fault w)
+        generalize bufferSet _ _ (State.fresh ((off * Int.ofNat t.size).toNat + bytes.length) 0 (some t)).traits _ _ _ = r at bs
+        cases r with
+        | fault w => exact bs
+        | fail s2 e => exact ⟨bs.1, bs.2.1, bs.2.2⟩
+        | ok s2 v => exact ⟨bs.1, bs.2.1, rel _ _ bs.2.2.1 a0, bs.2.2.2⟩
+    | some b =>
+      simp only
+      obtain ⟨x, hb⟩ := inv.live h b hh
+      rw [hb]
+      simp only
+      have hu := inv.used b x hb
+      have hal := inv.aligned b x hb
+      have absx : s.abs h = x.content := State.abs_of hh hb
+      have cl := content_length x hu
+      split
+      · exact Sem.fail_same inv _ _ _
+      · rename_i sameT
+        have xt : x.traits = some t := by simpa using sameT
+        generalize hpos : (if off < 0 then off * Int.ofNat t.size + Int.ofNat x.used else off * Int.ofNat t.size) = pos1
+        split
+        · exact Sem.fail_same inv _ _ _
+        · rename_i posok
+          have es := ensure_sem inv hh hb (decide (x.size < pos1.toNat + bytes.length ∨ x.immutable = true ∨ x.shared = true))
+            (max (pos1.toNat + bytes.length) x.used)
+            (by
+              intro hn
+              simp only [decide_eq_false_iff_not, not_or, Buf.shared, decide_eq_true_eq, Bool.not_eq_true] at hn
+              simp only [Buf.size] at hu hn ⊢
+              exact ⟨by omega, hn.2.1, by omega⟩)
+          generalize ensure s h b _ (max (pos1.toNat + bytes.length) x.used) = r at es
+          cases r with
+          | fault w => exact es
+          | fail s1 e => exact ⟨es.1, by rw [es.2.1], es.2.2⟩
+          | ok s1 nb =>
+            simp only
+            have bs := bufferSet_private_sem (s := s) (h := h) pos1.toNat bytes hasSrc hu hal absx es (by omega)
+            have rel : ∀ v v', v' = Vec.write v pos1.toNat bytes → v = x.content →
+                Vec.setAt v t.size off bytes = some v' := by
+              intro v v' e1 e2
+              subst e2
+              unfold Vec.setAt
+              rw [cl]
+              have : (if off < 0 then Int.ofNat x.used + off * Int.ofNat t.size else off * Int.ofNat t.size) = pos1 := by
+                rw [← hpos]; split <;> omega
+              simp only [this, posok, if_false, e1]
+            rw [← xt]
+            generalize bufferSet s1 nb x.traits pos1.toNat bytes hasSrc = r at bs
+            cases r with
+            | fault w => exact bs
+            | fail s2 e => exact ⟨bs.1, bs.2.1, bs.2.2⟩
+            | ok s2 v => exact ⟨bs.1, bs.2.1, rel _ _ bs.2.2.1 absx, bs.2.2.2⟩
+
+
+/-- handle `h` is re-pointed from its buffer (one reference less, freed at zero) to the live buffer `new`
+    (one reference more) or to nothing -/
+theorem Inv.reassign {s s' : State} (inv : Inv s) {h : Nat} (hlt : h < s.hs.length) (new : Option Nat)
+    (hnew : ∀ a, new = some a → ∃ x, s.buf? a = some x)
+    (hne : s.handle h ≠ new)
+    (hhs : s'.hs = s.hs.set h new)
+    (hbuf : ∀ c, s'.buf? c =
+      if new = some c then (s.buf? c).map (fun x => { x with ref := x.ref + 1 })
+      else if s.handle h = some c then
+        (match s.buf? c with
+         | some x => if x.ref = 1 then none else some { x with ref := x.ref - 1 }
+         | none => none)
+      else s.buf? c) :
+    Inv s' ∧
+    (s'.abs h = match new with
+      | some a => (match s.buf? a with | some x => x.content | none => [])
+      | none => []) ∧
+    ∀ h', h' ≠ h → s'.abs h' = s.abs h' := by
+  have hh : ∀ h1, s'.handle h1 = if h1 = h then new else s.handle h1 := by
+    intro h1
+    have := State.handle_setHandle s h h1 new hlt
+    simp only [State.handle, State.setHandle] at this ⊢
+    rw [hhs]; exact this
+  have hcnt : ∀ c, s'.hs.count (some c) = (s.hs.count (some c) - if s.handle h = some c then 1 else 0) + if new = some c then 1 else 0 := by
+    intro c
+    rw [hhs, count_set_handle _ _ _ _ hlt]
+    have e1 : (s.hs[h] = some c) ↔ (s.handle h = some c) := by
+      rw [State.handle_eq_some, List.getElem?_eq_getElem hlt]; simp
+    simp only [e1]
+  have two : ∀ h1 c x, h1 ≠ h → s.handle h1 = some c → s.handle h = some c → s.buf? c = some x → 2 ≤ x.ref := by
+    intro h1 c x ne e1 e2 ex
+    have r := inv.ref c x ex
+    rcases Nat.lt_or_ge x.ref 2 with lt | ge
+    · have : x.ref = 1 := by omega
+      exact absurd (inv.unique ex this e2 e1) ne
+    · exact ge
+  -- the three cases of a buffer in the new state
+  have cases3 : ∀ c y, s'.buf? c = some y →
+      (new = some c ∧ ∃ x, s.buf? c = some x ∧ y = { x with ref := x.ref + 1 }) ∨
+      (new ≠ some c ∧ s.handle h = some c ∧ ∃ x, s.buf? c = some x ∧ x.ref ≠ 1 ∧ y = { x with ref := x.ref - 1 }) ∨
+      (new ≠ some c ∧ s.handle h ≠ some c ∧ s.buf? c = some y) := by
+    intro c y e
+    rw [hbuf] at e
+    by_cases n1 : new = some c
+    · rw [if_pos n1] at e
+      cases hx : s.buf? c with
+      | none => rw [hx] at e; cases e
+      | some x => rw [hx] at e; simp only [Option.map_some, Option.some.injEq] at e; exact Or.inl ⟨n1, x, rfl, e.symm⟩
+    · rw [if_neg n1] at e
+      by_cases o1 : s.handle h = some c
+      · rw [if_pos o1] at e
+        cases hx : s.buf? c with
+        | none => rw [hx] at e; cases e
+        | some x =>
+          rw [hx] at e; simp only at e
+          by_cases r1 : x.ref = 1
+          · rw [if_pos r1] at e; cases e
+          · rw [if_neg r1] at e; cases e; exact Or.inr (Or.inl ⟨n1, o1, x, rfl, r1, rfl⟩)
+      · rw [if_neg o1] at e; exact Or.inr (Or.inr ⟨n1, o1, e⟩)
+  refine ⟨⟨?_, ?_, ?_, ?_, ?_⟩, ?_, ?_⟩
+  · intro h1 b1 e
+    rw [hh] at e
+    rw [hbuf]
+    by_cases e1 : h1 = h
+    · rw [if_pos e1] at e
+      obtain ⟨x, hx⟩ := hnew b1 e
+      simp [e, hx]
+    · rw [if_neg e1] at e
+      obtain ⟨x, hx⟩ := inv.live h1 b1 e
+      by_cases n1 : new = some b1
+      · simp [n1, hx]
+      · rw [if_neg n1]
+        by_cases o1 : s.handle h = some b1
+        · have := two h1 b1 x e1 e o1 hx
+          have : ¬ x.ref = 1 := by omega
+          simp [o1, hx, this]
+        · simp [o1, hx]
+  · intro c y e
+    rw [hcnt]
+    rcases cases3 c y e with ⟨n1, x, hx, ey⟩ | ⟨n1, o1, x, hx, r1, ey⟩ | ⟨n1, o1, ey⟩
+    · have r := inv.ref c x hx
+      have o1 : ¬ s.handle h = some c := by intro o; exact hne (o.trans n1.symm)
+      subst ey
+      simp only [o1, n1, if_true, if_false]
+      omega
+    · have r := inv.ref c x hx
+      subst ey
+      simp only [o1, n1, if_true, if_false]
+      omega
+    · have r := inv.ref c y ey
+      simp only [o1, n1, if_false]
+      omega
+  · intro c y e
+    rcases cases3 c y e with ⟨_, x, hx, ey⟩ | ⟨_, _, x, hx, _, ey⟩ | ⟨_, _, ey⟩
+    · subst ey; exact inv.used c x hx
+    · subst ey; exact inv.used c x hx
+    · exact inv.used c y ey
+  · intro c y e
+    rcases cases3 c y e with ⟨_, x, hx, ey⟩ | ⟨_, _, x, hx, _, ey⟩ | ⟨_, _, ey⟩
+    · subst ey; exact inv.plain c x hx
+    · subst ey; exact inv.plain c x hx
+    · exact inv.plain c y ey
+  · intro c y e
+    rcases cases3 c y e with ⟨_, x, hx, ey⟩ | ⟨_, _, x, hx, _, ey⟩ | ⟨_, _, ey⟩
+    · subst ey; exact inv.aligned c x hx
+    · subst ey; exact inv.aligned c x hx
+    · exact inv.aligned c y ey
+  · rw [State.abs_eq, hh]
+    simp only [if_true]
+    cases new with
+    | none => rfl
+    | some a =>
+      simp only
+      rw [hbuf]
+      simp only [if_true]
+      cases s.buf? a <;> rfl
+  · intro h1 ne
+    rw [State.abs_eq, State.abs_eq, hh]
+    simp only [ne, if_false]
+    cases e : s.handle h1 with
+    | none => rfl
+    | some b1 =>
+      simp only
+      obtain ⟨x, hx⟩ := inv.live h1 b1 e
+      rw [hbuf, hx]
+      by_cases n1 : new = some b1
+      · simp [n1, Buf.content]
+      · rw [if_neg n1]
+        by_cases o1 : s.handle h = some b1
+        · have := two h1 b1 x ne e o1 hx
+          have : ¬ x.ref = 1 := by omega
+          simp [o1, this, Buf.content]
+        · simp [o1]
+
+
+/-- content named by an optional buffer -/
+def contentOf (s : State) (a : Option Nat) : List Byte :=
+  match a with
+  | some a => (match s.buf? a with | some x => x.content | none => [])
+  | none => []
+
+/-- `replaceBuf` after the reference on `new` has been taken (`s1` = `s` with that reference added) -/
+theorem replaceBuf_sem {s s1 : State} (inv : Inv s) {dst : Nat} (hlt : dst < s.hs.length) (new : Option Nat)
+    (hnew : ∀ a, new = some a → ∃ x, s.buf? a = some x)
+    (hne : s.handle dst ≠ new)
+    (hs1hs : s1.hs = s.hs)
+    (hs1len : s1.bufs.length = s.bufs.length)
+    (hs1 : ∀ c, s1.buf? c = if new = some c then (s.buf? c).map (fun x => { x with ref := x.ref + 1 }) else s.buf? c) :
+    Sem s dst (fun _ v' => v' = contentOf s new) (replaceBuf s1 dst new (s.handle dst)) := by
+  unfold replaceBuf
+  cases hd : s.handle dst with
+  | none =>
+    simp only
+    have ra := Inv.reassign (s' := s1.setHandle dst new) inv hlt new hnew hne (by simp [hs1hs])
+      (by intro c; rw [State.buf?_setHandle, hs1]; simp [hd])
+    exact ⟨ra.1, by simp [hs1hs], ra.2.1, ra.2.2⟩
+  | some b =>
+    simp only
+    obtain ⟨x, hb⟩ := inv.live dst b hd
+    have blt := State.buf?_lt hb
+    have nb : ¬ new = some b := by intro e; exact hne (hd.trans e.symm)
+    have hb1 : (s1.setHandle dst new).buf? b = some x := by
+      rw [State.buf?_setHandle, hs1]; simp [nb, hb]
+    rw [unref_plain hb1 (inv.plain b x hb)]
+    have r := inv.ref b x hb
+    have r0 : ¬ x.ref = 0 := by omega
+    rw [if_neg r0]
+    by_cases r1 : x.ref = 1
+    · simp only [r1, ne_eq, not_true_eq_false, if_false]
+      have ra := Inv.reassign (s' := ((s1.setHandle dst new).setBuf b { x with ref := 0 }).freeBuf b) inv hlt new hnew hne
+        (by simp [hs1hs])
+        (by
+          intro c
+          rw [State.buf?_freeBuf _ _ _ (by simp [hs1len]; exact blt), State.buf?_setBuf _ _ _ _ (by simp [hs1len]; exact blt),
+            State.buf?_setHandle, hs1]
+          by_cases cb : c = b
+          · subst cb; simp [nb, hd, hb, r1]
+          · have : ¬ some b = some c := by intro e; cases e; exact cb rfl
+            simp [cb, hd, this])
+      exact ⟨ra.1, by simp [hs1hs], ra.2.1, ra.2.2⟩
+    · simp only [r1, ne_eq, not_false_eq_true, if_true]
+      have ra := Inv.reassign (s' := (s1.setHandle dst new).setBuf b { x with ref := x.ref - 1 }) inv hlt new hnew hne
+        (by simp [hs1hs])
+        (by
+          intro c
+          rw [State.buf?_setBuf _ _ _ _ (by simp [hs1len]; exact blt), State.buf?_setHandle, hs1]
+          by_cases cb : c = b
+          · subst cb; simp [nb, hd, hb, r1]
+          · have : ¬ some b = some c := by intro e; cases e; exact cb rfl
+            simp [cb, hd, this])
+      exact ⟨ra.1, by simp [hs1hs], ra.2.1, ra.2.2⟩
+
+theorem clone_sem {s : State} (inv : Inv s) {dst : Nat} (hlt : dst < s.hs.length) (src : Option Nat) :
+    Sem s dst (fun _ v' => v' = match src with | some hsrc => s.abs hsrc | none => []) (arrayClone s dst src) := by
+  unfold arrayClone
+  cases src with
+  | none =>
+    simp only
+    by_cases hd : s.handle dst = none
+    · rw [hd]
+      simp only [replaceBuf]
+      have : s.setHandle dst none = s := by
+        have e : s.hs.set dst none = s.hs := by
+          apply List.ext_getElem?
+          intro i
+          rw [List.getElem?_set]
+          split
+          · rename_i eq; subst eq
+            unfold State.handle at hd
+            split at hd
+            · exact absurd hd (by simp)
+            · rename_i hn
+              cases hx : s.hs[dst]? with
+              | none => have := List.getElem?_eq_none_iff.mp hx; omega
+              | some v => cases v with
+                | none => rfl
+                | some b => exact absurd hx (hn b)
+          · rfl
+        simp [State.setHandle, e]
+      rw [this]
+      exact ⟨inv, rfl, by simp [State.abs_none hd], fun _ _ => rfl⟩
+    · exact replaceBuf_sem inv hlt none (by intro a e; cases e) hd rfl rfl (by intro c; simp)
+  | some hsrc =>
+    simp only
+    split
+    · rename_i same
+      refine ⟨inv, rfl, ?_, fun _ _ => rfl⟩
+      simp [State.abs_eq, same]
+    · rename_i diff
+      split
+      · exact Sem.fail_same inv _ _ _
+      · cases hs : s.handle hsrc with
+        | none =>
+          simp only
+          have := replaceBuf_sem inv hlt none (by intro a e; cases e) (by rw [← hs]; exact fun e => diff e.symm) rfl rfl (by intro c; simp)
+          refine Sem.weaken this ?_
+          intro v v' e; rw [e]; simp [contentOf, State.abs_none hs]
+        | some a =>
+          simp only
+          obtain ⟨x, ha⟩ := inv.live hsrc a hs
+          have alt := State.buf?_lt ha
+          have r := inv.ref a x ha
+          unfold addref
+          rw [ha]
+          have r0 : ¬ x.ref = 0 := by omega
+          simp only [r0, if_false]
+          have := replaceBuf_sem (s1 := s.setBuf a { x with ref := x.ref + 1 }) inv hlt (some a)
+            (by intro a' e; cases e; exact ⟨x, ha⟩) (by rw [← hs]; exact fun e => diff e.symm) rfl (by simp)
+            (by
+              intro c
+              rw [State.buf?_setBuf _ _ _ _ alt]
+              by_cases ca : c = a
+              · subst ca; simp [ha]
+              · have : ¬ some a = some c := by intro e; cases e; exact ca rfl
+                simp [ca, this])
+          have key : Sem s dst (fun _ v' => v' = s.abs hsrc) (replaceBuf (s.setBuf a { x with ref := x.ref + 1 }) dst (some a) (s.handle dst)) := by
+            refine Sem.weaken this ?_
+            intro v v' e; rw [e]; simp only [contentOf, State.abs_eq, hs, ha]
+          have nz : x.ref + 1 ≠ 0 := by omega
+          generalize x.ref + 1 = k at nz key
+          cases k with
+          | zero => exact absurd rfl nz
+          | succ k => exact key
+
+
+theorem detachOp_sem {s : State} (inv : Inv s) {h : Nat} (n : Nat) :
+    Sem s h (fun v v' => ∃ k, n ≤ k ∧ v' = v.take k) (detachOp s h n) := by
+  unfold detachOp
+  cases hh : s.handle h with
+  | none => exact Sem.fail_same inv _ _ _
+  | some b =>
+    simp only
+    obtain ⟨x, hb⟩ := inv.live h b hh
+    have absx : s.abs h = x.content := State.abs_of hh hb
+    have es := ensure_sem inv hh hb true n (by intro e; cases e)
+    generalize ensure s h b true n = r at es
+    cases r with
+    | fault w => exact es
+    | fail s1 e => exact ⟨es.1, by rw [es.2.1], es.2.2⟩
+    | ok s1 nb =>
+      obtain ⟨inv2, len2, oth2, hh2, z, hz, _, _, _, _, k, hk, zc⟩ := es
+      exact ⟨inv2, len2, ⟨k, hk, by rw [State.abs_of hh2 hz, zc, absx]⟩, oth2⟩
+
+theorem reduce_sem {s : State} (inv : Inv s) {h : Nat} :
+    Sem s h (fun v v' => v' = v) (arrayReduce s h) := by
+  unfold arrayReduce
+  cases hh : s.handle h with
+  | none => exact ⟨inv, rfl, rfl, fun _ _ => rfl⟩
+  | some b =>
+    simp only
+    obtain ⟨x, hb⟩ := inv.live h b hh
+    rw [hb]
+    simp only
+    have hu := inv.used b x hb
+    have absx : s.abs h = x.content := State.abs_of hh hb
+    have es := ensure_sem inv hh hb true x.used (by intro e; cases e)
+    generalize ensure s h b true x.used = r at es
+    cases r with
+    | fault w => exact es
+    | fail s1 e =>
+      simp only
+      refine ⟨es.1, by rw [es.2.1], ?_, fun h' _ => es.2.2 h'⟩
+      exact es.2.2 h
+    | ok s1 nb =>
+      simp only
+      have dp : DetachPost s h x x.used s1 nb := es
+      obtain ⟨z, hz, _, _, _, _, _, zc⟩ := dp.keeps hu (Nat.le_refl _)
+      rw [hz]
+      exact ⟨dp.1, dp.2.1, by rw [State.abs_of dp.2.2.2.1 hz, zc, absx], dp.2.2.1⟩
+
+
+/-! ### reserve -/
+
+
+theorem min_mod {a b k : Nat} (ha : a % k = 0) (hb : b % k = 0) : min a b % k = 0 := by
+  rw [Nat.min_def]; split <;> assumption
+
+theorem reserveNew_shared_sem {s : State} (inv : Inv s) {h b : Nat} {x : Buf} (hh : s.handle h = some b)
+    (hb : s.buf? b = some x) (n len : Nat) (nlen : n ≤ len) (traits : Option Traits) (pt : PlainT traits)
+    (lal : len % esize traits = 0) :
+    Sem s h (fun v v' => v' = [] ∨ ∃ k, n ≤ k ∧ v' = v.take k) (reserveNew s h (some b) len traits) := by
+  have hlt := State.handle_lt hh
+  have blt := State.buf?_lt hb
+  have hu := inv.used b x hb
+  have hal := inv.aligned b x hb
+  have hp := inv.plain b x hb
+  have hr := inv.ref b x hb
+  have absx : s.abs h = x.content := State.abs_of hh hb
+  have hnb : s.buf? s.bufs.length = none := State.buf?_ge_length s _ (Nat.le_refl _)
+  have nbne : s.bufs.length ≠ b := by omega
+  have esz0 : esize x.traits ≠ 0 := by
+    cases ht : x.traits with
+    | none => simp [esize]
+    | some t => simp only [esize]; exact (hp t ht).2.2
+  unfold reserveNew
+  simp only
+  rw [hb]
+  simp only
+  rw [if_neg esz0]
+  -- the new buffer after the copy step
+  have copy : ∃ z, z.ref = 1 ∧ z.used ≤ z.size ∧ PlainT z.traits ∧ z.used % esize z.traits = 0 ∧
+      (z.content = [] ∨ z.content = x.content.take len) ∧
+      ∃ v, reserveCopy (s.newBuf len 0 traits) s.bufs.length x len traits =
+        .ok ((s.newBuf len 0 traits).setBuf s.bufs.length z) v := by
+    unfold reserveCopy
+    have hz : (s.newBuf len 0 traits).buf? s.bufs.length = some (State.fresh len 0 traits) := by
+      rw [State.buf?_newBuf]; simp
+    have same : (s.newBuf len 0 traits).setBuf s.bufs.length (State.fresh len 0 traits) = s.newBuf len 0 traits := by
+      simp [State.setBuf, State.newBuf, State.fresh]
+    split
+    · rename_i c
+      have te : x.traits = traits := c.1
+      rw [hal, Nat.sub_zero]
+      have bs := bufferSet_plain hz pt 0 (x.data.take (min x.used len)) true
+      have e1 : (State.fresh len 0 traits).traits = traits := rfl
+      have e2 : (State.fresh len 0 traits).size = allocSize len := by simp [State.fresh, Buf.size]
+      rw [e1, e2] at bs
+      have tl : (x.data.take (min x.used len)).length = min x.used len := by
+        rw [List.length_take]; simp only [Buf.size] at hu; omega
+      have asz := le_allocSize len
+      rw [bs, if_neg (by rw [tl]; omega)]
+      have zfacts : ∀ esz, esz = esize traits →
+          let z := setPlain (State.fresh len 0 traits) esz 0 (x.data.take (min x.used len))
+          z.ref = 1 ∧ z.used ≤ z.size ∧ PlainT z.traits ∧ z.used % esize z.traits = 0 ∧
+          (z.content = [] ∨ z.content = x.content.take len) := by
+        intro esz he
+        rw [setPlain_fresh]
+        refine ⟨rfl, ?_, pt, ?_, Or.inr ?_⟩
+        · simp only [Buf.size]
+          rw [write_length _ _ _ (by rw [tl, List.length_replicate]; omega), tl, List.length_replicate]; omega
+        · show (x.data.take (min x.used len)).length % esize traits = 0
+          rw [tl]
+          exact min_mod (by rw [← te]; exact hal) lal
+        · simp only [Buf.content]
+          have := content_take_write (List.replicate (allocSize len) poison) (x.data.take (min x.used len))
+            (by rw [tl, List.length_replicate]; omega)
+          rw [this, List.take_take, Nat.min_comm]
+      cases ht : traits with
+      | none =>
+        simp only
+        have zf := zfacts 1 (by rw [ht]; rfl)
+        rw [ht] at zf
+        exact ⟨_, zf.1, zf.2.1, zf.2.2.1, zf.2.2.2.1, zf.2.2.2.2, _, rfl⟩
+      | some t =>
+        simp only
+        have pts := pt t ht
+        have m0 : (x.data.take (min x.used len)).length % t.size = 0 := by
+          rw [tl]
+          exact min_mod (by have := hal; rw [te, ht] at this; exact this) (by rw [ht] at lal; exact lal)
+        rw [if_neg (by rw [m0]; simp [pts.2.2])]
+        have zf := zfacts t.size (by rw [ht]; rfl)
+        rw [ht] at zf
+        exact ⟨_, zf.1, zf.2.1, zf.2.2.1, zf.2.2.2.1, zf.2.2.2.2, _, rfl⟩
+    · refine ⟨State.fresh len 0 traits, rfl, by simp [State.fresh], pt, by simp [State.fresh], Or.inl (by simp [State.fresh, Buf.content]), 0, ?_⟩
+      rw [same]
+  obtain ⟨z, zr, zu, zp, za, zc, v, hcopy⟩ := copy
+  rw [hcopy]
+  simp only
+  have l2 : ((s.newBuf len 0 traits).setBuf s.bufs.length z).bufs.length = s.bufs.length + 1 := by simp
+  have hb2 : ((s.newBuf len 0 traits).setBuf s.bufs.length z).buf? b = some x := by
+    rw [State.buf?_setBuf _ _ _ _ (by simp), State.buf?_newBuf]
+    have : ¬ b = s.bufs.length := fun e => nbne e.symm
+    simp [this, hb]
+  rw [unref_plain hb2 hp]
+  have r0 : ¬ x.ref = 0 := by omega
+  rw [if_neg r0]
+  have final : ∀ s3 : State, s3.hs = s.hs →
+      (∀ c, s3.buf? c = if c = s.bufs.length then some z else
+        if c = b then (if x.ref = 1 then none else some { x with ref := x.ref - 1 }) else s.buf? c) →
+      Sem (α := Nat) s h (fun v v' => v' = [] ∨ ∃ k, n ≤ k ∧ v' = v.take k) (.ok (s3.setHandle h (some s.bufs.length)) s.bufs.length) := by
+    intro s3 h3 b3
+    have ret := Inv.retarget (s' := s3.setHandle h (some s.bufs.length)) inv (z := z) hlt hnb (by simp [h3])
+      (by
+        intro c
+        rw [State.buf?_setHandle, b3]
+        by_cases e1 : c = s.bufs.length
+        · simp [e1]
+        · simp only [e1, if_false, hh]
+          by_cases e2 : c = b
+          · subst e2; simp [hb]
+          · have : ¬ some b = some c := by intro e; cases e; exact e2 rfl
+            simp [e2, this])
+      zr zu zp za
+    refine ⟨ret.1, by simp [h3], ?_, ret.2.2.2⟩
+    rw [ret.2.2.1, absx]
+    rcases zc with e | e
+    · exact Or.inl e
+    · exact Or.inr ⟨len, nlen, e⟩
+  have bne : ¬ b = s.bufs.length := fun e => nbne e.symm
+  by_cases r1 : x.ref = 1
+  · simp only [r1, ne_eq, not_true_eq_false, if_false]
+    apply final
+    · simp
+    · intro c
+      rw [State.buf?_freeBuf _ _ _ (by simp; omega), State.buf?_setBuf _ _ _ _ (by simp; omega),
+        State.buf?_setBuf _ _ _ _ (by simp), State.buf?_newBuf]
+      by_cases e1 : c = s.bufs.length
+      · subst e1; simp [nbne]
+      · by_cases e2 : c = b
+        · rw [e2]; simp [bne, r1]
+        · simp [e1, e2]
+  · simp only [r1, ne_eq, not_false_eq_true, if_true]
+    apply final
+    · simp
+    · intro c
+      rw [State.buf?_setBuf _ _ _ _ (by simp; omega), State.buf?_setBuf _ _ _ _ (by simp), State.buf?_newBuf]
+      by_cases e1 : c = s.bufs.length
+      · subst e1; simp [nbne]
+      · by_cases e2 : c = b
+        · rw [e2]; simp [bne, r1]
+        · simp [e1, e2]
+
+
+theorem reserveFini_plain (s : State) (b : Nat) (x : Buf) (hp : PlainT x.traits) : reserveFini s b x = .ok s () := by
+  unfold reserveFini
+  cases ht : x.traits with
+  | none => rfl
+  | some t => simp [(hp t ht).2.1]
+
+theorem reserveClear_plain (s : State) (b : Nat) (x : Buf) (traits : Option Traits) (hb : s.buf? b = some x)
+    (hp : PlainT x.traits) :
+    reserveClear s b x traits = if x.traits ≠ traits then .ok (s.setBuf b { x with used := 0 }) () else .ok s () := by
+  unfold reserveClear
+  rw [reserveFini_plain s b x hp]
+  have fn : (x.traits.bind (·.fini)).isNone = true := by
+    cases ht : x.traits with
+    | none => rfl
+    | some t => simp [(hp t ht).2.1]
+  by_cases ne : x.traits = traits
+  · simp [ne]
+  · simp only [ne, ne_eq, not_false_eq_true, fn, true_or, or_true, and_self, if_true, hb]
+
+/-- detaching an unshared plain buffer cannot be refused -/
+theorem detach_private_no_fail {s : State} {b : Nat} {x : Buf} (hb : s.buf? b = some x) (hp : PlainT x.traits)
+    (r1 : x.ref = 1) (n : Nat) (s' : State) (e : Fail) : detach s b n ≠ .fail s' e := by
+  have esz0 : esize x.traits ≠ 0 := by
+    cases ht : x.traits with
+    | none => simp [esize]
+    | some t => simp only [esize]; exact (hp t ht).2.2
+  have blt := State.buf?_lt hb
+  unfold detach
+  rw [hb]
+  simp only
+  rw [if_neg esz0]
+  split
+  · intro c; cases c
+  · rw [if_neg (by omega), if_neg (by omega)]
+    unfold detachMove
+    have ft : ∀ s2, finiTail s2 b x (roundUp n (esize x.traits)) = .ok s2 () := by
+      intro s2
+      unfold finiTail
+      split
+      · cases ht : x.traits with
+        | none => rfl
+        | some t => simp [(hp t ht).2.1]
+      · rfl
+    rw [ft]
+    simp only
+    split
+    · split
+      · intro c; cases c
+      · intro c; cases c
+    · intro c; cases c
+
+theorem reserveKeep_sem {s : State} (inv : Inv s) {h b : Nat} {x : Buf} (hh : s.handle h = some b)
+    (hb : s.buf? b = some x) (priv : x.shared = false) (n len : Nat) (nlen : n ≤ len)
+    (traits : Option Traits) (pt : PlainT traits) :
+    Sem s h (fun v v' => v' = [] ∨ ∃ k, n ≤ k ∧ v' = v.take k) (reserveKeep s h b x len traits) := by
+  have hu := inv.used b x hb
+  have hal := inv.aligned b x hb
+  have hp := inv.plain b x hb
+  have hr := inv.ref b x hb
+  have blt := State.buf?_lt hb
+  have r1 : x.ref = 1 := by simp [Buf.shared] at priv; omega
+  have absx : s.abs h = x.content := State.abs_of hh hb
+  unfold reserveKeep
+  rw [reserveClear_plain s b x traits hb hp]
+  -- the state after the optional clearing, and its buffer
+  have mid : ∃ s1 x1, (if x.traits ≠ traits then Out.ok (s.setBuf b { x with used := 0 }) () else Out.ok s ()) = Out.ok s1 () ∧
+      Inv s1 ∧ s1.handle h = some b ∧ s1.buf? b = some x1 ∧ s1.hs = s.hs ∧ (∀ h', h' ≠ h → s1.abs h' = s.abs h') ∧
+      x1.traits = x.traits ∧ (x1.content = [] ∨ x1.content = x.content) ∧ (x.traits ≠ traits → x1.used = 0) := by
+    by_cases ne : x.traits = traits
+    · exact ⟨s, x, by simp [ne], inv, hh, hb, rfl, fun _ _ => rfl, rfl, Or.inr rfl, fun c => absurd ne c⟩
+    · have pm := inv.setBuf_private hh hb r1 { x with used := 0 } r1 (by simp) hp (by simp)
+      refine ⟨_, { x with used := 0 }, by simp [ne], pm.1, by simpa using hh, ?_, rfl, pm.2.2, rfl,
+        Or.inl (by simp [Buf.content]), fun _ => rfl⟩
+      rw [State.buf?_setBuf _ _ _ _ blt]; simp
+  obtain ⟨s1, x1, he, inv1, hh1, hb1, hs1, oth1, xt1, xc1, xu1⟩ := mid
+  rw [he]
+  simp only
+  have es := ensure_sem inv1 hh1 hb1 true len (by intro e; cases e)
+  have r11 : x1.ref = 1 := by
+    have := inv1.ref b x1 hb1
+    rw [hs1] at this
+    omega
+  have nofail : ∀ s2 e, ensure s1 h b true len ≠ .fail s2 e := by
+    intro s2 e
+    unfold ensure
+    simp only [if_true]
+    have := detach_private_no_fail hb1 (inv1.plain b x1 hb1) r11 len
+    cases hd : detach s1 b len with
+    | ok a b' => simp
+    | fail a e' => exact absurd hd (this a e')
+    | fault w => simp
+  generalize hr' : ensure s1 h b true len = r at es nofail
+  cases r with
+  | fault w => exact es
+  | fail s2 e => exact absurd rfl (nofail s2 e)
+  | ok s2 nb =>
+    simp only
+    have dp : DetachPost s1 h x1 len s2 nb := es
+    obtain ⟨inv2, len2, oth2, hh2, z, hz, zr, zi, zs, zt, k, hk, zc⟩ := dp
+    rw [hz]
+    simp only
+    have zu := inv2.used nb z hz
+    have za := inv2.aligned nb z hz
+    have pm := inv2.setBuf_private hh2 hz zr { z with traits := traits } zr zu pt
+      (by
+        show z.used % esize traits = 0
+        by_cases ne : x.traits = traits
+        · rw [← ne, ← xt1, ← zt]; exact za
+        · have u0 := xu1 ne
+          have : z.content.length = 0 := by rw [zc]; simp [Buf.content, u0]
+          rw [content_length z zu] at this
+          simp [this])
+    refine ⟨pm.1, by simp [len2, hs1], ?_, ?_⟩
+    · rw [pm.2.1, absx]
+      show z.content = [] ∨ ∃ k, n ≤ k ∧ z.content = List.take k x.content
+      rw [zc]
+      rcases xc1 with c0 | c1
+      · left; rw [c0]; simp
+      · right; exact ⟨k, by omega, by rw [c1]⟩
+    · intro h' ne; rw [pm.2.2 h' ne, oth2 h' ne]; exact oth1 h' ne
+
+
+theorem esize_ne_zero_of_plain (t : Option Traits) (pt : PlainT t) : esize t ≠ 0 := by
+  cases ht : t with
+  | none => simp [esize]
+  | some x => simp only [esize]; exact (pt x ht).2.2
+
+theorem reserve_sem {s : State} (inv : Inv s) {h : Nat} (hlt : h < s.hs.length) (n : Nat) (traits : Option Traits)
+    (pt : PlainT traits) :
+    Sem s h (fun v v' => v' = [] ∨ ∃ k, n ≤ k ∧ v' = v.take k) (arrayReserve s h n traits) := by
+  have e0 := esize_ne_zero_of_plain traits pt
+  unfold arrayReserve
+  rw [if_neg e0]
+  have nlen : n ≤ roundUp n (esize traits) := le_roundUp _ _
+  have lal := roundUp_mod n (esize traits) e0
+  cases hh : s.handle h with
+  | none =>
+    simp only [reserveNew]
+    obtain ⟨dp, absx⟩ := attach_fresh inv hlt hh (roundUp n (esize traits)) traits pt
+    obtain ⟨inv1, len1, oth1, hh1, z, hz, _, _, _, _, k, _, zc⟩ := dp
+    refine ⟨inv1, len1, Or.inl ?_, oth1⟩
+    rw [State.abs_of hh1 hz, zc]
+    simp [State.fresh, Buf.content]
+  | some b =>
+    simp only
+    obtain ⟨x, hb⟩ := inv.live h b hh
+    rw [hb]
+    simp only
+    split
+    · exact reserveNew_shared_sem inv hh hb n _ nlen traits pt lal
+    · rename_i priv
+      simp only [not_or, Bool.not_eq_true] at priv
+      exact reserveKeep_sem inv hh hb priv.1 n _ nlen traits pt
+
+
 end Mpt.Heap
